@@ -61,15 +61,19 @@ CHECKS["C05"] = ("Glob", "declarative glob semantics in TLA+ (model-checked fram
                  "expansion of every tree of a path pool x every pattern of a pattern pool",
                  "Glob.tla defines what a pattern denotes (segment wildcards, **, alternation, the leading-dot rule); TLC checks the semantics' own "
                  "frame properties over every tree x pattern of a sub-pool. Every subset of a 10 (quick) / 12 (thorough) path pool is built on disk and "
-                 "every one of 24 patterns expanded twice through SpokFile.Run; TLC compares each real expansion with Glob!Expand and the two "
+                 "every one of 29 patterns (wildcards, **, alternation also in directory segments, hidden branches) expanded twice through SpokFile.Run; TLC compares each real expansion with Glob!Expand and the two "
                  "expansions with each other.", TB + "the transcription of doublestar's matching rules in Glob.tla (validated on the pool).", "5 C05")
 
-CHECKS["C17"] = ("Find", "TLC model check of the upward walk as a state machine over every configuration incl. termination; every directory chain "
-                 "within bounds built on disk and searched with the real file.Find under a watchdog, judged by a TLC relation",
-                 "Find.tla is checked for every chain configuration, start and stop (depth 2 quick / 3 thorough): the walk terminates, returns the "
-                 "declaratively defined nearest spokfile and never looks above the stop directory; the pinned loop is refuted. Every chain of depth "
-                 "<= 2 (quick) / <= 3 plus sampled depth 4 (thorough) x start x stop is built for real and searched in a watched child process; TLC "
-                 "evaluates Conforms_C17 on every record.", TB + "a call not returning within 5 s is a hang; nothing named spokfile above the sandbox.", "5 C17")
+CHECKS["C17"] = ("Find", "TLC model check of the upward walk as a state machine over every configuration and path spelling incl. termination; TLAPS proof "
+                 "of the safety part for every depth; every directory chain within bounds built on disk and searched with the real file.Find under a "
+                 "watchdog, in several spellings of the two paths, judged by a TLC relation",
+                 "Find.tla is checked for every chain configuration, start, stop and pair of path spellings (clean, trailing separator, dotted, relative "
+                 "to a working directory): the walk terminates, returns the declaratively defined nearest spokfile and never looks above the stop "
+                 "directory; the pinned loop and the string-comparing walk are refuted. In the thorough tier FindProof.tla (TLAPS, 228 obligations) proves "
+                 "Correct (CHOOSE-free form, TLC checks the two forms agree) and NeverAboveStop for every depth. Every chain of depth <= 2 (quick) / <= 3 "
+                 "plus sampled depth 4 (thorough) x start x stop is built for real and searched in a watched child process, also with the other spellings "
+                 "(chdir for relative ones); TLC evaluates Conforms_C17 on every record.",
+                 TB + "tlapm 1.6.0-pre (thorough tier); a call not returning within 5 s is a hang; nothing named spokfile above the sandbox.", "5 C17; 9")
 
 SYNTB = TB + ("white space between generated tokens is ASCII; hex-encoded strings compared byte for byte; a parse not returning in 8 s is a hang. ")
 SYNTECH = ("input spaces generated from TLA+ models (SpokSyntax generative grammar rendered by TLC with the token stream and tree each text denotes; "
@@ -88,7 +92,7 @@ for _pid, _txt in (
                     "layouts (thousands of random structures), stating the denoted token stream and tree; together with every string over the 25-class lexer "
                     "alphabet up to the tier's bound, the repository's spokfiles with every truncation, truncations of generated programs and loose layouts "
                     "they are fed to the real lexer, parser and printer in watched child processes. TLC evaluates " + _txt + ". The models also predict the "
-                    "token stream, the parse outcome (LexSM/ParseSM, every input up to 4 bytes) and the formatter's canonical text (SpokSyntax's printer); "
+                    "token stream, the parse outcome (LexSM/ParseSM: every input up to 4 bytes, and every continuation by 2 / 3 bytes of 26 keyword-rich prefixes) and the formatter's canonical text (SpokSyntax's printer); "
                     "disagreement with the code is reported as drift.", SYNTB, "5 " + _pid + "; 9")
 
 CLITB = TB + ("the built binary run as uid nobody in a sandbox HOME with a scrubbed environment; side-effect log as ground truth of execution; "
@@ -100,7 +104,7 @@ for _pid, _txt in (
             "task executes again in a later run; the history clause Inv_C09b is also checked on the exhaustively explored real state graph of the run family"),
     ("C12", "Conforms_C12: without a clean task exactly the designated outputs (literal, named, glob) and the cache directory disappear and nothing else changes; the "
             "spokfile, its directory and every ancestor survive whatever the outputs evaluate to; with a clean task only that task runs"),
-    ("C13", "Conforms_C13: every command's interpolated text equals the declarative substitution and `echo \"$NAME\"` prints the spokfile value whatever the ambient "
+    ("C13", "Conforms_C13: every command's interpolated text equals the declarative substitution and `echo \"$NAME\"`, `printenv NAME` and `sh -c` (a started program's environment) print the spokfile value whatever the ambient "
             "environment and .env contain; a failing exec is an error and nothing runs"),
     ("C19", "Conforms_C19: every changed path is allowed by MayWrite(action, state) -- the cache directory, the spokfile under --fmt when it parses and loads, a new "
             "spokfile and an appended .gitignore under --init -- for every TLC-enumerated (spokfile kind x flag set x cwd x .gitignore x .env x cache) scenario, "
